@@ -200,7 +200,7 @@ class ExprMixin:
         if k == "obj":
             oid = v.args[1]
             if self.is_counter(v):
-                c = self.counts.get(self.count_key(oid))
+                c = self.get_count(self.count_key(oid))
                 if isinstance(c, tuple):
                     return True if c[1] > 0 else None
                 return None if c is None else c > 0
@@ -264,7 +264,7 @@ class ExprMixin:
         if v.kind == "const":
             return v.args[0]
         if v.kind == "count":
-            c = self.counts.get(self.count_key(v.args[0]))
+            c = self.get_count(self.count_key(v.args[0]))
             return _NOVAL if (c is None or isinstance(c, tuple)) else c
         return _NOVAL
 
@@ -294,6 +294,14 @@ class ExprMixin:
 
     def count_key(self, oid):
         return oid
+
+    def get_count(self, key):
+        """Abstract value of a counter.  The counters of a collection passed in
+        as an argument (tree 'P:<param>') are 0 at a public entry point: that
+        collection is not inside one of its own operations."""
+        if key not in self.counts and isinstance(key, tuple) and key and str(key[0]).startswith("P:") and key[1] == "_suspend_sync":
+            self.counts[key] = 0
+        return self.counts.get(key)
 
     # ---------------------------------------------------------- attributes
     def inst_tree_root(self, inst):
@@ -961,7 +969,7 @@ class ExprMixin:
                 delta = -delta
             elif op != "Add":
                 delta = None
-            c = self.counts.get(key)
+            c = self.get_count(key)
             if delta is None:
                 nc = None
             elif c is None:
